@@ -93,6 +93,7 @@ type fileCaseSpec struct {
 	mon           Monitors
 	bounded       int // 0 unbounded, 1 bounded, 2 either
 	gen           func(c *core.Case, p *GenParams)
+	churn         func(c *core.Case) bool // insert alloc/free churn transactions
 	stall         bool
 	postCase      func(c *core.Case, w *World) // extra work after the program
 	nontrivialMin int
@@ -110,6 +111,19 @@ func runFileCase(c *core.Case, spec fileCaseSpec) *core.Result {
 		spec.gen(c, &p)
 	}
 	prog := GenProgram(r, p)
+	if spec.churn != nil && spec.churn(c) {
+		// alloc/free/re-alloc churn on pages of the running transaction, inserted
+		// after the first third of the history (and once on the fresh file)
+		cut := len(prog) / 3
+		for cut < len(prog) && prog[cut].K != OBegin {
+			cut++
+		}
+		np := append([]Op{}, churnTxs(r)...)
+		np = append(np, prog[:cut]...)
+		np = append(np, churnTxs(r)...)
+		prog = append(np, prog[cut:]...)
+		res.Add("churn_cases", 1)
+	}
 	if p.MaxAllocN > 100 && cfg.MaxPages == 0 {
 		// big transactions: give the simulated device enough room
 		cfg.DiskCap = 32 << 20
@@ -291,6 +305,7 @@ func init() {
 			return runFileCase(c, fileCaseSpec{
 				mon:     Monitors{Property: "C04", Ownership: true, Partition: true, Coverage: true, Content: true},
 				bounded: 2,
+				churn:   func(c *core.Case) bool { return c.Idx%10 == 3 },
 				gen: func(c *core.Case, p *GenParams) {
 					p.Txs = 15 + c.R.Intn(45)
 					if c.Tier == "thorough" {
@@ -337,6 +352,7 @@ func init() {
 					p.PCommit, p.PReopen, p.Overflow = 45, 8, 25
 					p.MaxAllocN = 10
 				},
+				churn: func(c *core.Case) bool { return c.Idx%6 == 1 },
 			})
 		},
 		Finalize: func(a *core.Aggregate) error {
